@@ -227,6 +227,25 @@ impl Check for C01 {
                         }
                     }
                 }
+                // (1b) a consumed sink with a write-back cache (bytes are durable only once a flush succeeded) whose
+                // flush is interrupted: write() owns the sink, so Ok must mean everything was flushed
+                if out.violation.is_none() {
+                    let pol = writeback_sink(&mut io.borrow_mut().ftape);
+                    extra ^= policy_digest(&pol).rotate_left(3);
+                    let sink = SimSink::new(&io, pol.clone());
+                    let st = sink.store.clone();
+                    match guard(|| lib.write(sink)) {
+                        Err(p) => out.violation = Some(panic_violation("GdsLibrary::write(writeback)", &p, json!({"library": lib_artefact(&lib)}))),
+                        Ok(Err(_)) => out.probes.hit("write_flush_interrupted_err_reported"),
+                        Ok(Ok(())) => {
+                            if *st.borrow() != bytes0 {
+                                out.violation = Some(viol("ack-not-durable", format!("write/writeback/flush-eintr={}", pol.flush_eintr), format!("write returned Ok but only {} of {} bytes were made durable by a successful flush ({} interrupted flush calls)", st.borrow().len(), bytes0.len(), pol.flush_eintr), &lib, Value::Null));
+                            } else {
+                                out.probes.hit("write_writeback_durable");
+                            }
+                        }
+                    }
+                }
                 // (2) save with terminal faults on the file
                 if out.violation.is_none() {
                     let fs = SimFs::new(&io);
@@ -269,7 +288,7 @@ impl Check for C01 {
                     let fs = SimFs::new(&io);
                     let _g = fs.install();
                     fs.put(INP, bytes0.clone());
-                    let rpol = terminal_read(&mut io.borrow_mut().ftape, len0);
+                    let rpol = terminal_read(&mut io.borrow_mut().ftape, len0, true);
                     extra ^= policy_digest(&rpol).rotate_left(21);
                     fs.plan(INP, FilePlan { read: rpol.clone(), ..Default::default() });
                     let before = io.borrow().errors_returned.len();
